@@ -31,8 +31,8 @@ fn project(rows: &[Row], keep: &[&str]) -> Vec<String> {
     v.sort(); v
 }
 
-// @grid c23_grid_query_transformations tier=quick bound="numbers 0..8; edges predecessor/successor/multiple(max:3) x scopes plain/@optional/@fold x 6 comparison operators x arguments {0,2,5}; recursion depths 1..3 on predecessor/successor and 1..5 on Composite.divisor (implicit coercion at every level) and Composite.multiple(max:2); 6 string operator pairs x 10 patterns (4 of them invalid regexes) x 3 scopes with static arguments, and with tag arguments; contains/is_null pairs; tag renaming"
-// @ob adding a filter never adds rows; a filter and its negation partition the rows (outside missing optional scopes); `=` agrees with one_of on a one-element list; making an edge @optional keeps all previous rows; raising a recursion depth never removes rows; renaming outputs and reordering sibling selections changes no row contents
+// @grid c23_grid_query_transformations tier=quick bound="numbers 0..8; edges predecessor/successor/multiple(max:3) x scopes plain/@optional/@fold x 6 comparison operators x arguments {0,2,5}; recursion depths 1..3 on predecessor/successor and 1..5 on Composite.divisor (implicit coercion at every level) and Composite.multiple(max:2); 6 string operator pairs x 10 patterns (4 of them invalid regexes) x 3 scopes with static arguments, and with tag arguments; contains/is_null pairs; tag renaming; the entry edge Number(min, max) vs the equivalent range filter (6 ranges x 4 selections)"
+// @ob adding a filter never adds rows; a filter and its negation partition the rows (outside missing optional scopes); `=` agrees with one_of on a one-element list; making an edge @optional keeps all previous rows; raising a recursion depth never removes rows; renaming outputs or tags and reordering sibling selections changes no row contents; a parameterized edge (Number(min, max)) behaves like the equivalent filter
 pub(crate) fn c23_grid_query_transformations() {
     let mut n = 0u64;
     let mut failures = BTreeSet::new();
@@ -142,6 +142,18 @@ pub(crate) fn c23_grid_query_transformations() {
             if both != keyed(&all) { failures.insert(format!("filter {pos} and its negation {neg} on {prop} do not partition the rows")); }
         }
         n += 1;
+    }
+    // a parameterized edge behaves like the equivalent filter: Number(min, max) is the range filter on value
+    for (a, b) in [(0i64, 12i64), (3, 7), (5, 5), (7, 3), (0, 0), (11, 12)] {
+        for inner in [r#"value @output(name: "v")"#, r#"value @output(name: "v") successor { value @output(name: "w") }"#, r#"value @output(name: "v") multiple(max: 2) @fold { value @output(name: "w") }"#, r#"... on Composite { value @output(name: "v") divisor { value @output(name: "w") } }"#] {
+            vk::grid_case(format_args!("Number(min: {}, max: {}) vs filters: {}", a, b, inner));
+            let with_parameters = format!(r#"{{ Number(min: {a}, max: {b}) {{ {inner} }} }}"#);
+            let with_filters = format!(r#"{{ Number(min: 0, max: 12) {{ {} }} }}"#, inner.replacen(r#"value @output(name: "v")"#, r#"value @output(name: "v") @filter(op: ">=", value: ["$a"]) @filter(op: "<=", value: ["$b"])"#, 1));
+            if let (Some(x), Some(y)) = (rows(&with_parameters, &[], &mut failures), rows(&with_filters, &[("a", FieldValue::Int64(a)), ("b", FieldValue::Int64(b))], &mut failures)) {
+                if x != y { failures.insert(format!("Number(min: {a}, max: {b}) differs from the equivalent range filter: {inner}")); }
+            }
+            n += 1;
+        }
     }
     vk::grid_done("c23_grid_query_transformations", n);
     if !failures.is_empty() { panic!("query transformation relations violated: {{{}}}", failures.into_iter().take(8).collect::<Vec<_>>().join("; ")); }
